@@ -14,6 +14,8 @@ def parseOp (j : Json) : Option (Op F String) := do
   | "commit" => some Op.commit
   | "read" => (getStr j "attr").map Op.read
   | "wrapped" => some Op.refusedWrapped
+  | "readfail" => (getStr j "attr").map Op.readFail
+  | "readfault" => (getStr j "attr").map Op.read     -- resolved by `resolve` below
   | _ => none
 
 def outJson : Out F → Json
@@ -22,12 +24,24 @@ def outJson : Out F → Json
   | .typeError => Json.str "TypeError"
   | .keyError => Json.str "KeyError"
   | .value snap => Json.mkObj [("value", toJson snap)]
+  | .raised => Json.str "raised"
+
+/-- a read during which the raw package's attribute would raise if it were consulted (`"readfault"`): the model's own cache
+decides whether it is consulted — a hit is an ordinary read, a miss is `Op.readFail` -/
+def resolve (s : PW F String) (faulty : Bool) (op : Op F String) : Op F String :=
+  match faulty, op with
+  | true, .read attr =>
+    match s.cache attr with
+    | some (pt, _) => if pt = s.reusePt then .read attr else .readFail attr
+    | none => .readFail attr
+  | _, op => op
 
 /-- run the model, reporting after every operation its result, USE set and `changes_count()`, and what the
 reference object does with the same operation from the same USE set (the shape of `step_matches_spec_partial`) -/
-def trace (v : Variant) (locked : F → Bool) : PW F String → List (Op F String) → List Json
+def trace (v : Variant) (locked : F → Bool) : PW F String → List (Op F String × Bool) → List Json
   | _, [] => []
-  | s, op :: ops =>
+  | s, (op0, faulty) :: ops =>
+    let op := resolve s faulty op0
     let (s', o) := step v locked s op
     let (u', so) := Spec.step locked s.use op
     Json.mkObj [("out", outJson o), ("use", toJson s'.use.new), ("count", toJson s'.use.count),
@@ -44,7 +58,7 @@ def handle : Handler := fun cmd j =>
       | some "pinned" => some Variant.pinned
       | _ => none
     let opsJ ← getArr j "ops"
-    let ops ← opsJ.mapM parseOp
+    let ops ← opsJ.mapM fun o => (parseOp o).map fun op => (op, getStr o "op" == some "readfault")
     -- `InvertedContains(changeable)`: everything outside the list is unchangeable
     let locked : F → Bool := fun f => !(changeable.contains f)
     pure (Json.arr (trace variant locked (PW.init init) ops).toArray)
